@@ -42,7 +42,7 @@ CHECKS = {
 
 CHECKS.update({
     "C13": dict(
-        technique="TLA+ spec (Lazy: accessor semantics over Wire!ParseAll) + TLC model checking (MCLazy coherence) + TLC trace validation of recorded accessor/nested/Range events",
+        technique="TLA+ spec (Lazy: accessor semantics over Wire!ParseAll; LazyDef: definitions and their builder API) + TLC model checking (MCLazy coherence; MCLazyDef enumerating every builder script, replayed on the real Def) + TLC trace validation of recorded accessor/nested/Range events and Def operations",
         text="TLC checks the accessor semantics of the specification for coherence on every message of up to 2 (quick) / 3 (thorough) fields from a 13-field alphabet x 4 "
              "definitions; the real lazyproto is run on seeded random value trees (all wire types, repeated, packed, nested to depth 2, 1 in 6 mutated) x random "
              "definitions (flat, nested, negative tags, absent tags) x all 26 typed accessors (through FieldData and through the DecodeResult helpers) x paths x "
